@@ -10,6 +10,9 @@ The models follow the code AFTER the repairs of branch fix-c05 (see known_findin
   * set_bit/reset_bit/flip_bit/test_bit compare `pos` unsigned (no `static_cast<int>` wrap),
   * basic_inplace_string::erase(first, last) checks `start <= size()` and `distance <= size() - start`.
 and of branch fix-c05b:
+  * span::first<Count>() / last<Count>() / subspan<Offset, Count>() and the static-extent constructors check their
+    run-time preconditions,
+  * chrono::day / month accept 255 (`<=` instead of `<`),
   * array<T, 0>::front() / back() check `Size != 0`, array<T, 0>::operator[] checks `false` (both configurations),
   * basic_inplace_string::insert(index, ...) (7 overloads) and erase(index, count) check `index <= size()`.
 -/
@@ -369,6 +372,15 @@ def kLast := K fSP "span::last" "count <= size()"
 def kSubOff := K fSP "span::subspan" "offset <= size()"
 def kSubCnt := K fSP "span::subspan" "count != dynamic_extent ? (count <= size() - offset) : true"
 abbrev dyn : Nat := U64 - 1
+def kFirstT := K fSP "span::first" "Count <= size()"
+def kLastT := K fSP "span::last" "Count <= size()"
+def kSubOffT := K fSP "span::subspan" "Offset <= size()"
+def kSubCntT := K fSP "span::subspan" "Count == dynamic_extent or Count <= size() - Offset"
+/-- the static-extent constructors: 0 `(It, count)`, 1 `(R&&)`, 2 `(span<U, N> const&)` -/
+def kCtorExt (k : Nat) := K fSP "span::span" (match k with
+  | 0 => "extent == dynamic_extent or count == extent"
+  | 1 => "extent == dynamic_extent or ranges::size(r) == extent"
+  | _ => "extent == dynamic_extent or source.size() == extent")
 
 def at_ (i : Nat) : M Out := do guard kAt (fun s => i < s.size); let x ← rdAt i; pure [x]
 def front : M Out := do guard kFront (fun s => s.size != 0); let x ← rdAt 0; pure [x]
@@ -381,6 +393,20 @@ def subspan (off count : Nat) : M Out := do
   guard kSubCnt (fun s => if count != dyn then count ≤ s.size - off else true)
   let n ← getSize
   VW.sub off (if count == dyn then n - off else count)
+/-- `first<Count>()`, `last<Count>()`, `subspan<Offset, Count>()` on a span of dynamic extent -/
+def firstT (count : Nat) : M Out := do guard kFirstT (fun s => count ≤ s.size); VW.sub 0 count
+def lastT (count : Nat) : M Out := do
+  guard kLastT (fun s => count ≤ s.size); let n ← getSize; VW.sub (n - count) count
+def subspanT (off count : Nat) : M Out := do
+  guard kSubOffT (fun s => off ≤ s.size)
+  guard kSubCntT (fun s => if count != dyn then count ≤ s.size - off else true)
+  let n ← getSize
+  VW.sub off (if count == dyn then n - off else count)
+/-- `span<T, ext>(first, count)` / `(range)` / `(span<U, dynamic_extent>)` over the `size()` elements of the object -/
+def ctorExt (k ext : Nat) : M Out := do
+  guard (kCtorExt k) (fun s => ext == dyn || s.size == ext)
+  let n ← getSize
+  VW.sub 0 n
 end SP
 
 namespace AR
@@ -626,8 +652,8 @@ end BS
 namespace SC
 def kBit (fn : String) (k : Nat := 0) := K ("_bit/" ++ fn ++ ".hpp") fn "pos < static_cast<UInt>(etl::numeric_limits<UInt>::digits)" k
 def kDiv := K "_numeric/div_sat.hpp" "div_sat" "y != 0"
-def kDay := K "_chrono/day.hpp" "day::day" "d < etl::numeric_limits<etl::uint8_t>::max()"
-def kMonth := K "_chrono/month.hpp" "month::month" "m < etl::numeric_limits<unsigned char>::max()"
+def kDay := K "_chrono/day.hpp" "day::day" "d <= etl::numeric_limits<etl::uint8_t>::max()"
+def kMonth := K "_chrono/month.hpp" "month::month" "m <= etl::numeric_limits<unsigned char>::max()"
 def kStride (l : String) := K ("_mdspan/" ++ l ++ ".hpp") (l ++ "::stride") (if l == "layout_stride" then "i < extents_type::rank()" else "r < extents_type::rank()")
 def kNull (file fn what : String) (k : Nat := 0) := K file fn (what ++ " != nullptr") k
 def kSetOrd := K "_set/static_set.hpp" "static_set::static_set" "last - first >= 0"
@@ -654,24 +680,33 @@ def linalgChecks (fn : String) (nx ny nz r c : Nat) : List (Key × Bool) :=
 def toStringChecks (cap : Nat) (x : Int) : List (Key × Bool) := [(kToString, (toString x).length + 1 ≤ cap)]
 
 def bitFns : List String := ["flip_bit", "reset_bit", "set_bit", "set_bit", "test_bit"]
-/-- the bit functions on a `w`-bit word (`which` 0 flip, 1 reset, 2 set, 3 set(value), 4 test): only the check
-    and the shift-count requirement `pos < w` of `UInt(1) << pos` -/
+/-- the bit functions on a `w`-bit word `UInt` (`which` 0 flip, 1 reset, 2 set, 3 set(value), 4 test), `pos` a `UInt` value.
+    The check compares two `UInt` values (`pos < static_cast<UInt>(digits)`); the damage is the shift `UInt(1) << pos`:
+    the left operand is promoted to `int` for 8/16-bit words, the shift is undefined for a count >= the width of the
+    promoted type. -/
 def bit (which w pos : Nat) : M Out := do
   let fn := bitFns.getD which "test_bit"
-  guard (kBit fn (if which == 3 then 1 else 0)) (fun _ => pos < w)
-  if pos < w then pure [] else (fun _ s => .oob s)
-/-- `div_sat(x, y)`: the check, then the division -/
-def divSat (y : Int) : M Out := do
+  guard (kBit fn (if which == 3 then 1 else 0)) (fun _ => pos % 2 ^ w < w % 2 ^ w)
+  if pos % 2 ^ w < max w 32 then pure [] else (fun _ s => .oob s)
+abbrev I32min : Int := -2147483648
+abbrev I32max : Int := 2147483647
+/-- `div_sat(x, y)` on `int`: the check, the saturation branch, then `x / y`; the damage is the division itself
+    (by zero, or a quotient that is not representable) -/
+def divSat (x y : Int) : M Out := do
   guard kDiv (fun _ => y != 0)
-  if y != 0 then pure [] else (fun _ s => .oob s)
+  if x == I32min && y == -1 then pure [I32max]
+  else if y == 0 then (fun _ s => .oob s)
+  else
+    let q := Int.tdiv x y
+    if q < I32min || I32max < q then (fun _ s => .oob s) else pure [q]
 /-- `day(d)` / `month(m)`: the member is initialised (truncated) first, then the check runs -/
 def dayCtor (d : Nat) : M Out := do
   putElems [(d % 256 : Nat)]
-  guard kDay (fun _ => d < 255)
+  guard kDay (fun _ => d ≤ 255)
   pure []
 def monthCtor (m : Nat) : M Out := do
   putElems [(m % 256 : Nat)]
-  guard kMonth (fun _ => m < 255)
+  guard kMonth (fun _ => m ≤ 255)
   pure []
 /-- `mapping::stride(r)` for a mapping of rank `size` -/
 def stride (l : String) (r : Nat) : M Out := do
@@ -708,6 +743,7 @@ inductive Op where
   | vwAt (i : Nat) | vwFront | vwBack | vwRemovePrefix (n : Nat) | vwRemoveSuffix (n : Nat)
   | vwCopy (count pos : Nat) | vwSubstr (pos count : Nat)
   | spAt (i : Nat) | spFront | spBack | spFirst (n : Nat) | spLast (n : Nat) | spSubspan (off count : Nat)
+  | spFirstT (n : Nat) | spLastT (n : Nat) | spSubspanT (off count : Nat) | spCtorExt (k ext : Nat)
   | arAt (k i : Nat) | arFront (k : Nat) | arBack (k : Nat)
   | strCtorPtr (xs : List Int) (len : Nat) | strCtorFill (n : Nat) (ch : Int) | strOpAssign (xs : List Int)
   | strAssignFill (n : Nat) (ch : Int) | strAssignPtr (xs : List Int) (n : Nat)
@@ -717,7 +753,7 @@ inductive Op where
   | strInsert (k index : Nat) (xs : List Int) | strInsertFill (index count : Nat) (ch : Int) | strEraseIdx (index count : Nat)
   | optDeref (k : Nat) | expDeref (k : Nat) | expError (k : Nat) | varIdx (k i : Nat) | varGet (k i : Nat)
   | bb (which pos : Nat) (v : Int) | bs (which pos : Nat) (v : Int) | bsCtor (pos n bits : Nat)
-  | bit (which w pos : Nat) | divSat (y : Int) | dayCtor (d : Nat) | monthCtor (m : Nat) | stride (l : String) (r : Nat)
+  | bit (which w pos : Nat) | divSat (x y : Int) | dayCtor (d : Nat) | monthCtor (m : Nat) | stride (l : String) (r : Nat)
   | nullChecks (ks : List (Key × Bool)) | setCtor (n : Nat) (ordered : Bool)
   deriving Repr, Inhabited
 
@@ -741,6 +777,7 @@ def run : Op → M Out
   | .vwCopy c p => VW.copy c p | .vwSubstr p c => VW.substr p c
   | .spAt i => SP.at_ i | .spFront => SP.front | .spBack => SP.back
   | .spFirst n => SP.first n | .spLast n => SP.last n | .spSubspan o c => SP.subspan o c
+  | .spFirstT n => SP.firstT n | .spLastT n => SP.lastT n | .spSubspanT o c => SP.subspanT o c | .spCtorExt k e => SP.ctorExt k e
   | .arAt k i => AR.at_ k i | .arFront k => AR.front k | .arBack k => AR.back k
   | .strCtorPtr xs n => STR.ctorPtr xs n | .strCtorFill n ch => STR.ctorFill n ch | .strOpAssign xs => STR.opAssign xs
   | .strAssignFill n ch => STR.assignFill n ch | .strAssignPtr xs n => STR.assignPtr xs n
@@ -752,7 +789,7 @@ def run : Op → M Out
   | .optDeref k => OEV.optDeref k | .expDeref k => OEV.expDeref k | .expError k => OEV.expError k
   | .varIdx k i => OEV.varIdx k i | .varGet k i => OEV.varGet k i
   | .bb w p v => BS.bb w p v | .bs w p v => BS.bs w p v | .bsCtor p n b => BS.ctor p n b
-  | .bit wh w p => SC.bit wh w p | .divSat y => SC.divSat y | .dayCtor d => SC.dayCtor d | .monthCtor m => SC.monthCtor m
+  | .bit wh w p => SC.bit wh w p | .divSat x y => SC.divSat x y | .dayCtor d => SC.dayCtor d | .monthCtor m => SC.monthCtor m
   | .stride l r => SC.stride l r | .nullChecks ks => SC.nullChecks ks | .setCtor n o => SC.setCtor n o
 
 end Tetl.C05
